@@ -17,6 +17,31 @@ def Credits (c : Cache α) (s : Net) (a : α) (d : Nat) : Prop :=
 def Coherent (c : Cache α) : Prop :=
   ∀ s d a, pget c s d = some a ↔ Credits c s a d
 
+/-! the three abstract steps on a map `(snet, dnet) ↦ router`, as plain functions
+    (Props/C19.lean names them `AMap.learn/forget/renumber`) -/
+
+/-- learn: overwrite -/
+def learnMap (m : Net → Nat → Option α) (s : Net) (a : α) (ds : List Nat) : Net → Nat → Option α :=
+  fun s' d' => if s' = s ∧ d' ∈ ds then some a else m s' d'
+
+/-- forget: remove exactly what is named -/
+def forgetMap (m : Net → Nat → Option α) (s : Net) (a : Option α) (ds : Option (List Nat)) :
+    Net → Nat → Option α :=
+  fun s' d' =>
+    match a, ds with
+    | some a, some (x :: xs) => if s' = s ∧ d' ∈ (x :: xs) ∧ m s d' = some a then none else m s' d'
+    | some a, _ => if s' = s ∧ m s d' = some a then none else m s' d'
+    | none, some ds => if s' = s ∧ d' ∈ ds then none else m s' d'
+    | none, none => m s' d'
+
+/-- renumber: move, the moved entry wins -/
+def renumberMap (m : Net → Nat → Option α) (old new : Net) : Net → Nat → Option α :=
+  fun s' d' =>
+    if old = new then m s' d'
+    else if s' = old then none
+    else if s' = new then (match m old d' with | some a => some a | none => m new d')
+    else m s' d'
+
 theorem Coherent.unique {c : Cache α} (h : Coherent c) {s : Net} {a b : α} {d : Nat}
     (ha : Credits c s a d) (hb : Credits c s b d) : a = b := by
   have h1 := (h s d a).mpr ha
